@@ -641,6 +641,11 @@ def execute(node, case, rec, opts):
     rec.ev("model", merr, unspecified, pauses, mview)
     if unspecified:
         rec.probe("unspecified_behaviour")
+        import re
+        if re.search(r"\by\d+\s+dup\b", src):
+            # past the unspecified operation the values on the stack are anybody's guess, and '<n> <output> dup' with
+            # such a value is a legal request for gigabytes (soak seeds 611, 614: timeouts reported as hangs)
+            raise Discard("unspecified behaviour ahead of an output dup: nothing bounds the output size")
     if pauses:
         rec.probe("program_paused")
 
